@@ -108,9 +108,10 @@ Definition run_1102 (input impl : sx) : sx :=
      S2 the calls are the declarative description: reset_spec of the naive reference
         (filter_walk_is_naive_reference + reset_eq_spec) — judged when no path is in the late-shadow
         domain and the L/* literals are regex-safe (the other cases are C10's known findings);
-     S3 (walk_open_agree / reported_file_can_be_opened) every announced regular file opens with
-        its bytes; when the map table drops nothing, every regular file that opens is announced —
-        judged in the same domain; outside it a disagreement carries the late-shadow signature. *)
+     S3 (reported_file_can_be_opened / walk_open_agree) every announced regular file opens with
+        its bytes — judged outside the late-shadow domain; when the map table drops nothing,
+        every regular file that opens is announced — judged when additionally the L/* literals are
+        regex-safe; inside the late-shadow domain a disagreement carries the late-shadow signature. *)
 Definition dec_open3 (s : sx) : option (list N * N) :=
   match s with SL [SB p; SN a] => Some (p, a) | _ => None end.
 
@@ -138,25 +139,31 @@ Definition run_1103 (input impl : sx) : sx :=
           let map_ok := forallb (fun e : entry => negb (st_is_dir (fst e))
                            || match fst (mf (st_path (fst e)) (fst e)) with MExclude => false | _ => true end) full in
           let keeps_all := forallb (fun e : entry => match fst (mf (st_path (fst e)) (fst e)) with MKeep => true | _ => false end) full in
-          let dom := negb (in_late_shadow_domain pm c view) && cfg_star_safe c in
+          let shadow := in_late_shadow_domain pm c view in
+          let dom := negb shadow && cfg_star_safe c in
           let s1 := sx_eqb (of_optnat (run_validator (items icalls))) (SL [])
                     && sx_eqb (of_optnat (hardlink_check icalls)) (SL [])
                     && sx_eqb vv (SL []) && sx_eqb hv (SL []) in
           let declarative := reset_spec (reference (keep_naive pm c) mf view) in
           let s2 := sx_eqb (enc_stats declarative) calls in
           let announced (p : list N) := existsb (fun s => bytes_eqb (st_path s) p) icalls in
-          let s3 := forallb (fun o => let '(p, a) := o in
-                               if announced p then N.eqb a 1
-                               else if keeps_all then N.eqb a 0 else negb (N.eqb a 2)) iopens
-                    && Nat.eqb (length iopens) (length regs) in
+          (* S3a: announced => opens with its bytes (reported_file_can_be_opened: any matcher);
+             S3b: not announced => cannot be opened (walk_open_agree: map drops nothing, prefix
+             semantics); a file served with other bytes is never acceptable *)
+          let s3a := forallb (fun o => let '(p, a) := o in if announced p then N.eqb a 1 else negb (N.eqb a 2)) iopens
+                     && Nat.eqb (length iopens) (length regs) in
+          let s3b := forallb (fun o => let '(p, a) := o in announced p || N.eqb a 0) iopens in
           let j1 := negb (src_ok && map_ok) || s1 in
           let j2 := negb (src_ok && dom) || s2 in
-          let j3 := negb (src_ok && dom) || s3 in
-          let code := (if j1 then 0 else 1) + (if j2 then 0 else 2) + (if j3 then 0 else 4) in
-          (* outside the domain only S3 is looked at, to attach the signature to a disagreement *)
-          if src_ok && negb dom && negb s3 && j1
-          then verdict model impl' false (SL [sig s_late_shadow; SN 8])%N
-          else verdict model impl' (j1 && j2 && j3) (SL [SN code; of_bool src_ok; of_bool map_ok; of_bool dom])%N
+          let j3a := negb (src_ok && negb shadow) || s3a in
+          let j3b := negb (src_ok && dom && keeps_all) || s3b in
+          let code := (if j1 then 0 else 1) + (if j2 then 0 else 2) + (if j3a then 0 else 4) + (if j3b then 0 else 8) in
+          (* inside the late-shadow domain only the walk/Open pair is looked at, to attach the
+             signature of the known finding to a disagreement *)
+          if src_ok && shadow && negb (s3a && (negb keeps_all || s3b)) && j1
+          then verdict model impl' false (SL [sig s_late_shadow; SN 16])%N
+          else verdict model impl' (j1 && j2 && j3a && j3b)
+                       (SL [SN code; of_bool src_ok; of_bool map_ok; of_bool shadow; of_bool (cfg_star_safe c)])%N
         | Some _, Some _, Some _, None => v_diff (SL [SN 65535])
         | _, _, _, _ => v_malformed
         end
